@@ -12,7 +12,7 @@ from .. import tlc
 from ..words import limbs
 from .c18 import _dispatch
 
-MENU = {0: 'aaaaa', 1: 'wawaa', 2: 'acaaa', 3: 'asaaa', 4: 'saasa', 5: 'alaaa', 6: 'aalsa'}
+MENU = {0: 'aaaaa', 1: 'wawaa', 2: 'acaaa', 3: 'asaaa', 4: 'saasa', 5: 'alaaa', 6: 'aalsa', 7: 'amaaa', 8: 'maama'}
 HANDLERS = [14, 240, 176, 225, 0, 0, 0, 0, 192, 112, 160, 227, 8, 240, 94, 226, 4, 240, 94, 226]     # MC_IT!Handlers (136..155)
 
 
@@ -25,6 +25,8 @@ def slot_bytes(form, k):
         return [0, 223]
     if form == 'l':
         return [56, 104]
+    if form == 'm':
+        return [136, 243, 0, 136]
     return [0, 46]
 
 
@@ -37,6 +39,7 @@ def scenario_task(task):
             st['R'][r] = limbs(0)
         st['R']['R6usr'] = limbs(1)
         st['R']['R7usr'] = limbs(1)
+        st['R']['R8usr'] = limbs(0x66000000)
         st['R']['PC'] = limbs(64)
         st['cpsr'] = limbs((sc['fl'] << 28) | 0x20 | 16)
         for m in st['spsr']:
@@ -118,7 +121,7 @@ def clause_filter(c, v, e):
 def run(ctx):
     rnd = random.Random(ctx.seed)
     q = ctx.quick
-    consts = {'GEN': 'TRUE', 'FLAGSET': '{0, 2, 6, 9}' if q else '{%s}' % ', '.join(str(i) for i in range(16)), 'MENUS': '{0, 1, 2, 3, 5}' if q else '{0, 1, 2, 3, 4, 5, 6}'}
+    consts = {'GEN': 'TRUE', 'FLAGSET': '{0, 2, 6, 9}' if q else '{%s}' % ', '.join(str(i) for i in range(16)), 'MENUS': '{0, 2, 3, 5, 7}' if q else '{0, 1, 2, 3, 4, 5, 6, 7, 8}'}
     r = ctx.mc('MC_IT', constants=consts, coverage=False, timeout=3000)
     scs = tlc.printed_json(r['out'])
     if len(scs) < 5000:
@@ -145,7 +148,7 @@ def run(ctx):
                           what='replayed scenario did not reach the end of the program')
     ctx.behaviours += sum(1 for g in groups for m in g.meta.values() if m.get('final'))
     ctx.extra['scenarios_from_tlc'] = len(scs)
-    ctx.extra['rule'] = ('MC_IT scenarios (legal (fc, mask) x NZCV x 5 (thorough: 7) menus incl. SVC and aborting-LDR slots x IRQ position; quick: every 6th, 4 flag values) '
+    ctx.extra['rule'] = ('MC_IT scenarios (legal (fc, mask) x NZCV x 5 (thorough: 9) menus incl. SVC, aborting-LDR and MSR APSR slots x IRQ position; quick: every 6th, 4 flag values) '
                          'assembled into RAM and single-stepped on the real code, the IRQ taken by take_physical_irq_exception '
                          'and returned from by SUBS PC, LR, #4; every step judged by TLC; plus random IT-block programs')
     for g, e, v in res[:3]:
